@@ -376,6 +376,8 @@ theorem axis_strip (sp : StripFn) (ax : Axis) (l : Loc) (h : l.stripped sp = fal
     rw [ancestors_strip sp l h]
   | following => exact following_strip sp l h
   | preceding => exact preceding_strip sp l h
+  | attrAxis => rfl
+  | nsAxis => rfl
 
 /-! ### node tests -/
 
